@@ -6,9 +6,7 @@ import (
 	"encoding/json"
 	"fmt"
 	"math"
-	"os"
 	"sort"
-	"strconv"
 	"strings"
 
 	"github.com/robertkrimen/otto"
@@ -50,21 +48,21 @@ func init() {
 		},
 		Floor: func(tier string) int {
 			if tier == "thorough" {
-				return 400000
+				return 1000000
 			}
 			return 20000
 		},
 		Cases: func(tier string, seed uint64) int {
-			if n, err := strconv.Atoi(os.Getenv("C11_CASES")); err == nil && n > 0 {
-				return n // development knob
-			}
 			if tier == "thorough" {
-				return 2400000
+				return 4000000
 			}
 			return 60000
 		},
-		Exec:   func(c *run.Ctx, i int) { checkOne(c, generate(c.Rng, i)) },
-		Replay: func(c *run.Ctx, raw json.RawMessage) { var in Input; mustUnmarshal(raw, &in); checkOne(c, in) },
+		// every case takes milliseconds; the generous watchdog only avoids false
+		// "hang" reports when the machine is heavily oversubscribed
+		CaseTimeoutS: 900,
+		Exec:         func(c *run.Ctx, i int) { checkOne(c, generate(c.Rng, i)) },
+		Replay:       func(c *run.Ctx, raw json.RawMessage) { var in Input; mustUnmarshal(raw, &in); checkOne(c, in) },
 	})
 	registerMatchers()
 }
@@ -97,7 +95,7 @@ func generate(r *gen.Rand, i int) Input {
 	case 2:
 		plain := r.Chance(2, 5)
 		in := Input{Op: "stringify", Plain: plain}
-		in.V = genValue(r, !plain, !plain && r.Chance(1, 6), r.Chance(1, 12))
+		in.V = genValue(r, !plain, !plain && r.Chance(1, 4), r.Chance(1, 12))
 		switch r.Intn(10) {
 		case 0, 1, 2, 3:
 		case 4, 5, 6:
